@@ -252,6 +252,12 @@ func (m *Manager) createSignedDataToSubmit(ctx context.Context) ([]*types.Signed
 
 	for _, data := range dataList {
 		if len(data.Txs) == 0 {
+			// Empty data is never published. As long as no non-empty data precedes it in the
+			// pending range it is not waiting for anything, so the watermark moves past it;
+			// otherwise an idle chain would count its empty blocks as pending forever.
+			if len(signedDataToSubmit) == 0 && data.Metadata != nil {
+				m.pendingData.setLastSubmittedDataHeight(ctx, data.Height())
+			}
 			continue
 		}
 		signature, err := m.getDataSignature(data)
